@@ -1389,6 +1389,18 @@ func (z *Decimal) Sub(x, y *Decimal) *Decimal {
 
 	// ±0 - y
 	// x - ±Inf
+	if y.form == finite {
+		// ±0 - y == -y. The sign affects rounding in the directed modes,
+		// so it must be set before rounding, not after.
+		if z != y {
+			z.exp = y.exp
+			z.mant = z.mant.set(y.mant)
+		}
+		z.form = finite
+		z.neg = !y.neg
+		z.round(0)
+		return z
+	}
 	return z.Neg(y)
 }
 
